@@ -423,8 +423,11 @@ Definition op_removetree (s:st) (path:list namerec) : res st :=
   if negb (eref_is_dir r) then Err DEXP else rmtree_go 64 s r.
 
 (** [setinfo]: the three optional timestamps already broken down by the caller *)
+Definition year_ok (t:option now_rec) : bool :=
+  match t with Some (y,_,_,_,_,_) => (1980 <=? y) && (y <=? 2107) | None => true end.
 Definition op_setinfo (s:st) (path:list namerec) (ct mt at_:option now_rec) : res st :=
   do r <- get_dir_entry s path;
+  if negb (year_ok ct && year_ok mt && year_ok at_) then Err EINVAL else
   match r with
   | ERoot => Err ENOENT
   | EAt ploc e =>
